@@ -20,9 +20,9 @@ from concurrent.futures import ThreadPoolExecutor
 sys.path.insert(0, os.path.dirname(os.path.dirname(os.path.abspath(__file__))))
 import common as C  # noqa: E402
 
-GEN = ['Effects', 'VecShape']
+GEN = ['Effects', 'VecShape', 'ArgWrites']
 PROPS = ['FinVerif.Props.C18a', 'FinVerif.Props.C18b', 'FinVerif.Props.C18c', 'FinVerif.Props.C18d', 'FinVerif.Props.C18e',
-         'FinVerif.Props.C18f']
+         'FinVerif.Props.C18f', 'FinVerif.Props.C18g']
 DRIVERS = ['FinVerif.Driver.C18']
 HIST = os.path.join(os.path.dirname(os.path.dirname(os.path.abspath(__file__))), 'c18_hist.py')
 NPROC = int(os.environ.get('VERIF_JOBS', '0')) or min(12, os.cpu_count() or 4)
@@ -1726,6 +1726,81 @@ def show(op):
     return f"{op['o'] + '.' if op.get('o') else ''}{op['m']}({args})"
 
 
+def argwrites_check(ctx):
+    """harness side of Props/C18g (in-place argument mutation table, tools/effects/argwrites.py):
+    (a) coverage, independently of the extractor: the files of an os.walk of financepy/ and a plain-text count of the lines that open a
+        `def` must be what Gen/ArgWrites.lean's `fileCounts` says (the theorems `every_def_scanned` / `total_textual_eq` are about that table);
+    (b) runtime tie on array kernels: functions the table lists NO write for must leave their array arguments bit-identical, the one
+        listed as an in-place normaliser must change its argument (a table that lists nothing would fail here)."""
+    import re as _re
+    import numpy as np
+    sys.path.insert(0, os.path.join(C.VERIF, 'tools', 'effects'))
+    import argwrites
+    try:
+        res = argwrites.analyse(C.REPO)
+    except Exception as e:  # noqa: BLE001
+        ctx.broke(f'argument-write extractor failed on the source: {type(e).__name__}: {e}')
+        return
+    table = {r[0]: r for r in res['files']}
+    walked = {}
+    pat = _re.compile(r'^\s*(?:async\s+)?def\s+\w+\s*\(')
+    for dp, _, fns in os.walk(os.path.join(C.REPO, 'financepy')):
+        for fn in fns:
+            if fn.endswith('.py'):
+                full = os.path.join(dp, fn)
+                with open(full, encoding='utf-8') as f:
+                    walked[os.path.relpath(full, C.REPO)] = sum(1 for ln in f if pat.match(ln))
+    if set(walked) != set(table):
+        ctx.broke(f'argument-write table does not cover the files under financepy/: missing {sorted(set(walked) - set(table))[:5]}, extra {sorted(set(table) - set(walked))[:5]}')
+    bad = [(k, walked[k], table[k][3]) for k in walked if k in table and walked[k] != table[k][3]]
+    if bad:
+        ctx.broke(f'argument-write table: textual def count differs from the harness\'s own count: {bad[:5]}')
+    gen = open(os.path.join(C.LEAN_DIR, 'FinVerif', 'Gen', 'ArgWrites.lean'), encoding='utf-8').read()
+    m = _re.search(r'def totalTextual : Nat := (\d+)', gen)
+    if not m or int(m.group(1)) != sum(walked.values()):
+        ctx.broke(f'Gen/ArgWrites.lean totalTextual = {m and m.group(1)} but the tree has {sum(walked.values())} textual defs')
+    listed = {(w[1], w[3]) for w in res['writes']}
+    # (b) runtime tie
+    from financepy.utils.math import solve_tridiagonal_matrix
+    from financepy.models.gauss_copula_onefactor import homog_basket_loss_dbn
+    from financepy.utils.helpers import normalise_weights
+    rng = ctx.rng('argwrites')
+    n_calls = 0
+    for _ in range(20):
+        n = rng.randint(3, 12)
+        a = np.zeros((n, 3))
+        for i in range(n):
+            a[i, 0] = -rng.uniform(0.1, 1.0)
+            a[i, 1] = rng.uniform(2.5, 4.0)
+            a[i, 2] = -rng.uniform(0.1, 1.0)
+        r = np.array([rng.uniform(-2.0, 2.0) for _ in range(n)])
+        a0, r0 = a.copy(), r.copy()
+        solve_tridiagonal_matrix(a, r)
+        n_calls += 1
+        for nm, x, x0 in (('a_matrix', a, a0), ('r', r, r0)):
+            if x.tobytes() != x0.tobytes():
+                ctx.violation(f'solve_tridiagonal_matrix changed its argument `{nm}` in place (Spec/ArgWrites excuses no write of this function)',
+                              {'a_matrix': a0.tolist(), 'r': r0.tolist(), 'after': x.tolist()}, clause='inputs unchanged')
+        nc = rng.randint(2, 10)
+        sp = np.array([rng.uniform(0.5, 0.999) for _ in range(nc)])
+        bv = np.array([rng.uniform(0.05, 0.9) for _ in range(nc)])
+        sp0, bv0 = sp.copy(), bv.copy()
+        homog_basket_loss_dbn(sp, np.full(nc, 0.4), bv, 20)
+        n_calls += 1
+        for nm, x, x0 in (('survival_probs', sp, sp0), ('beta_vector', bv, bv0)):
+            if x.tobytes() != x0.tobytes():
+                ctx.violation(f'homog_basket_loss_dbn changed its argument `{nm}` in place (Spec/ArgWrites excuses no write of this function)',
+                              {'survival_probs': sp0.tolist(), 'beta_vector': bv0.tolist(), 'after': x.tolist()}, clause='inputs unchanged')
+        w = np.array([rng.uniform(0.5, 3.0) for _ in range(nc)])
+        w0 = w.copy()
+        normalise_weights(w)
+        n_calls += 1
+        if w.tobytes() == w0.tobytes() and ('normalise_weights', 'wt_vector') in listed and abs(w0.sum() - 1.0) > 1e-9:
+            ctx.broke('argument-write table lists normalise_weights(wt_vector) as in place but the argument did not change')
+    ctx.count('argument-write table: files / defs / kernel calls with arguments digested', n_calls, n_calls,
+              sample={'files': len(walked), 'textual_defs': sum(walked.values()), 'rows': len(res['writes'])})
+
+
 def run(ctx):
     import time
     T = [time.time()]
@@ -1789,14 +1864,15 @@ def run(ctx):
         module_state_check(ctx, eff, mod_before)
     if eff is not None and 'call_graph' in eff:
         interclass_effects_check(ctx, eff)
+    argwrites_check(ctx)
     lap('model ties')
     ctx.assumptions += [
         'the per-method effect summaries are intra-class; calls made on OTHER objects (parameters, attribute-held objects) are followed by the generated call graph (Props/C18f) where the class of the object can be resolved (annotation / default / isinstance / naming convention) - the 5 unresolved call sites are listed exactly - and otherwise covered by the history exploration',
-        'effects through NumPy array aliasing and inside Numba-compiled kernels are found only by the history exploration',
+        'in-place writes through PARAMETERS (NumPy arrays, lists, objects; @njit kernels included) are tabulated for every def under financepy/ (Props/C18g, syntactic: direct writes and local aliases / views; not followed into callees - each callee has its own row); other aliasing (attributes of self holding a caller array) is found only by the history exploration',
         'the two-phase tree-model API (build_tree then a query) is exercised as products use it (build and query in one call); a bare query after somebody else\'s build_tree is by design the last tree',
         'printing methods (__repr__, print_*) report the last valuation by design and are not treated as results, except str(Date) whose dependence on the global format is checked with the format as an explicit argument',
     ]
-    return C.finish(ctx, 'proof', 'lake build FinVerif.Props.C18a FinVerif.Props.C18b FinVerif.Props.C18c FinVerif.Props.C18d FinVerif.Props.C18e FinVerif.Props.C18f && lake env lean .cache/audit/Audit_C18.lean',
+    return C.finish(ctx, 'proof', 'lake build FinVerif.Props.C18a FinVerif.Props.C18b FinVerif.Props.C18c FinVerif.Props.C18d FinVerif.Props.C18e FinVerif.Props.C18f FinVerif.Props.C18g && lake env lean .cache/audit/Audit_C18.lean',
                     C.TRUSTED_BASE_COMMON + ['tools/effects/extract.py: the read-before-write / write sets it emits over-approximate what the methods do (checked against observed attribute changes on every explored call)'],
                     RULE)
 
